@@ -20,9 +20,10 @@ pub const MEMORY_MINIMUM_SIZE: usize = 0x1000;
 pub const MEMORY_SIZE_INCREASE: usize = 0x1000;
 /// The cache is append-only and cannot grow. When less than this is left, all
 /// translated blocks are dropped and translation starts over. A block comes
-/// from at most one 16KB ROM bank, and no instruction expands to more than
-/// ~120 bytes of host code in it, so 2MB always fits the next block.
-pub const MEMORY_FLUSH_THRESHOLD: usize = 0x200000;
+/// from at most one 16KB ROM bank; the largest translation of a single guest
+/// byte is DAA's 141 bytes of host code (a bank full of DAA needs 2.2MB), so
+/// 4MB - 256 bytes per guest byte - always fits the next block.
+pub const MEMORY_FLUSH_THRESHOLD: usize = 0x400000;
 
 pub struct CodeCache {
   exec_memory: ExecutableMemory,
